@@ -6,6 +6,10 @@ commits = subprocess.run(["git","-C","/repo","log","--format=%H %s"],capture_out
 hook_commits = [c.split()[0] for c in commits if c.split(" ",1)[1].startswith("verif:")]
 
 CLAIMED = {
+ "C15": dict(
+   text="A small kernel-level part of the property: the backslash-sequence scanners lib.UnbackslashStringLiteral / UnhexStringLiteral and their recognisers (\\ooo and \\xhh exactly, digit classifiers exactly, identity on text without backslashes, never index outside the text, always terminate); the capture interpolation behind sub/gsub/=~ (lib.InterpolateCaptures: identity without \\d, a replacement that is exactly one \\d yields exactly capture d, never indexes outside replacement or the ten capture slots), the capture-copy loops over regexp results (at most ten slots, groups beyond the ninth ignored, slices inside the input); leftpad/rightpad terminate for every pad string.",
+   note="Not decided (most of the property): UTF-8 character counting and 1-up bounds of strlen/substr/truncate/format (unicode/utf8 and rune conversion are library code seen as uninterpreted functions), agreement of sub/gsub/regextract/splitax/=~ with a reference regex engine (package regexp trusted: only the documented shape of FindAllStringSubmatchIndex is assumed), base64/hex/latin1/json inverse pairs, digests, printf rendering (package fmt), the verbs wrapping these functions.",
+   ref="DESIGN.md §3.C15"),
  "C02": dict(
    text="The clause of the property that the outcome depends only on which formats are selected, not on how the selection is spelled, is decided for the format-selection flags: each of the 91 keystroke-saver flags of the documented matrix (docs/src/reference-main-flag-list.md: row = input format, column = output format) and each of the 34 flags documented as 'Use X format for input / output / input and output data' has, as a machine-checked postcondition of its parser closure in cli.FLAG_TABLE (found through the entry's name), that it selects exactly those formats (for JSON output also list-wrapping on; for JSON Lines output the jsonl writer or JSON with wrapping and multi-line off) and consumes one argument. The expectations are generated from the documentation, not from the code.",
    note="Not decided: A->B->A and A->B = A->C->B over record streams; flatten/unflatten as inverse pair (needs recursive specs over nested values); -i/-o/--io two-argument forms, named separators and aliases, .mlrrc line handling; the other ~130 flags.",
@@ -66,7 +70,6 @@ CLAIMED = {
 NA = {
  "C04": "Batch-size and scheduling independence, termination and streaming are properties of goroutine compositions; the VC generator havocs the heap at go, select and channel receive, so no contract in reach can state them. Two mechanisms named by the anchors are proved under other ids (hash-index transparency of findEntry under C12, send-once of the downstream-done flag in head under C11). See DESIGN.md §3.C04.",
  "C13": "Pairing completeness is relational over two multisets of records; the bucket keeper and the half-streaming step are long methods over the generic lib.OrderedMap and channels, and no contract written carries a pairing statement. Only the grouping-key escaping (shared with C10) is proved. See DESIGN.md §3.C13.",
- "C15": "Character-versus-byte indexing rests on unicode/utf8, the regex functions on regexp, formatting on fmt, hashing on crypto/*: library code the engine only sees as uninterpreted functions, so a contract would be vacuous or restate the call. The backslash/hex literal scanners are proved (counted under C18) but are too small a part of the property to claim it. See DESIGN.md §3.C15.",
  "C17": "Error delivery crosses three goroutines and two capacity-1 channels; whether some ordering loses the error is a property of all schedules, which contracts on sequential functions cannot state (the generator havocs at every receive/select). The line readers' byte accounting is proved under C01. See DESIGN.md §3.C17.",
  "C19": "Crash consistency quantifies over crash points between os.CreateTemp, os.Rename and os.Chmod; it needs an abstract file system with event traces, which the engine does not have (only ghost counters), and processFileInPlace mixes os calls, goroutines and the whole stream. See DESIGN.md §3.C19.",
  "C20": "Correctness of the open-file LRU depends on the whole history of target switches; MultiOutputHandlerManager and FileOutputHandler mix maps, a linked list, os files and per-file goroutines, and no invariant written for them discharged soundly. Their map/list safety obligations are in the thorough C18 sweep. See DESIGN.md §3.C20.",
